@@ -28,7 +28,7 @@ FUNCTIONS = ['OperatorDict.__getitem__ (cache keyed by ordered key tuple)', 'do_
              'lambdify / func_builder / KingdonPrinter._print_unpacking', 'MultiVector.asfullmv', 'MultiVector.fromkeysvalues',
              'all 14 binary and 15 unary codegen_* functions', 'the generated functions of base and variant patterns']
 ASSUMPTIONS = ['coefficients are reals; explicit zeros are the integer 0', 'inv/div/outertan: recorded denominators non-zero; sqrt/normalized: Study number with positive scalar part']
-BOUNDS = {'quick': '(p,q,r) d<=3; every operator x base patterns (d<=2 subsets, d=3 random sparse) x {permutations, random paddings, dense canonical, dense binary, asfullmv both}; wrapper algebras with a second pass; compiled registered functions on storage variants',
+BOUNDS = {'quick': '23 further public methods (duals by kind, norm, normalized, powers of either sign, grade selection, map, filter, dense forms, number on either side of / and -) under all variants; (p,q,r) d<=3; every operator x base patterns (d<=2 subsets, d=3 random sparse) x {permutations, random paddings, dense canonical, dense binary, asfullmv both}; wrapper algebras with a second pass; compiled registered functions on storage variants',
           'thorough': 'all (p,q,r) d=3, d=4 sparse bases, more bases per operator'}
 OUTSIDE = ['d > 4', 'key tuples with repeated blades', 'floating-point rounding']
 OPTS = {'rlimit': 300_000_000, 'canary_every': 12}
@@ -89,6 +89,23 @@ def cases(tier, seed):
             va = [dict(keys=list(reversed(ka)), how='perm'), dict(keys=[0] + ka, how='pad'), dict(keys=ka + [15], how='pad'), dict(keys=None, how='asfullmv')]
             out.append(dict(kind='unary', cfg=cfg, op='inv', ka=ka, va=va))
             out.append(dict(kind='binary', cfg=cfg, op='div', ka=[1, 2], kb=ka, va=[dict(keys=[2, 1], how='perm')], vb=va[:3]))
+    # the remaining public methods (duals by kind, norms, powers, grade selection, map, dense forms)
+    for cfg in (dict(p=2), dict(p=1, q=1), dict(p=3), dict(p=2, r=1), dict(p=1, q=2), dict(p=3, r=1), dict(p=2, r=2)):
+        d = sum(cfg.values())
+        order = pat.canon_order(d, 0 if cfg.get('r') == 1 else 1)
+        vec = [k for k in order if bin(k).count('1') == 1]
+        S = [s_ for s_ in (pat.SUB(d) if d <= 3 else pat.RND(d, 60, rng, max_len=4)) if 1 <= len(s_) <= 4]
+        for m in METHODS:
+            for _ in range(2 if tier == 'quick' else 8):
+                ka = list(rng.choice(S))
+                if m in ('norm', 'normalized'):
+                    ka = rng.sample(vec, rng.randint(1, len(vec))) if rng.random() < 0.7 else [rng.randrange(1, 2 ** d)]
+                if m.startswith('pow-') and d >= 3:
+                    ka = ka[:3]
+                va = _variants(ka, d, rng)
+                if (m.startswith('pow-') or m in ('normalized',)) and d >= 3:
+                    va = [v for v in va if v['how'] in ('perm', 'pad')][:3] or va[:1]
+                out.append(dict(kind='method', cfg=cfg, op=m, ka=ka, va=va))
     # configuration fuzz over all construction axes
     for i in range(60 if tier == 'quick' else 600):
         cfg, d = pat.random_cfg(rng, d=rng.choice((2, 2, 3, 3)))
@@ -141,7 +158,55 @@ def run_case(desc, V):
     if desc['kind'] == 'registered':
         from ..kapi import make_alg
         return _registered(desc, V, make_alg(desc['cfg']))
+    if desc['kind'] == 'method':
+        return twice_on_wrapper(desc['cfg'], lambda alg: _method(desc, V, alg))
     return twice_on_wrapper(desc['cfg'], lambda alg: _body(desc, V, alg))
+
+
+METHODS = {
+    'dual': 'x.dual()', 'undual': 'x.undual()', 'dual-hodge': "x.dual(kind='hodge')", 'undual-hodge': "x.undual(kind='hodge')",
+    'norm': 'x.norm()', 'normalized': 'x.normalized()', 'pow2': 'x ** 2', 'pow3': 'x ** 3', 'pow0': 'x ** 0', 'pow-1': 'x ** -1', 'pow-2': 'x ** -2',
+    'grade1': 'x.grade(1)', 'grade02': 'x.grade(0, 2)', 'grade-all': 'x.grade(*x.grades)', 'map': 'x.map(lambda v: 3 * v)', 'map-kv': 'x.map(lambda k, v: (k + 1) * v)',
+    'filter-kv': 'x.filter(lambda k, v: k % 2 == 1)', 'asfullmv': 'x.asfullmv()', 'full-binary': 'x.asfullmv(canonical=False)', 'conj-sandwich': 'x * x.conjugate() * ~x',
+    'number-div': '3 / x', 'div-number': 'x / 3', 'rsub': '2 - x',
+}
+
+
+def _method(desc, V, alg):
+    from ..core import Fail
+    f = eval('lambda x: ' + METHODS[desc['op']])
+    op = desc['op']
+    a = mv(alg, V, 'a', desc['ka'])
+    claims = []
+
+    def call(x):
+        try:
+            return f(x), None
+        except ZeroDivisionError:
+            return None, 'ZeroDivisionError'
+        except sym.ValueBranch:
+            raise
+        except Exception as e:  # noqa
+            return None, type(e).__name__
+    base, berr = call(a)
+    if op in ('norm', 'normalized') and V.symbolic and sym.cur().assumptions:
+        import z3
+        s_ = z3.Solver(); s_.set('timeout', 20000); s_.add(*sym.cur().assumptions)
+        if s_.check() == z3.unsat:
+            del sym.cur().assumptions[:]
+            return [Eq('outside-real-domain', 1, 1)]
+    for i, var in enumerate(desc['va']):
+        av = _variant_mv(alg, a, var)
+        claims += eq_claims(f'variant-same-element[{i}]', coeffs(av), coeffs(a))
+        r, rerr = call(av)
+        if berr or rerr:
+            if (berr is None) != (rerr is None) and 'ZeroDivisionError' not in (berr, rerr):
+                claims.append(Fail(f'{op}:{var["how"]}:raise-mismatch', f'{METHODS[op]}: base layout {"raised " + berr if berr else "returned"}, variant {var["how"]} {"raised " + rerr if rerr else "returned"}',
+                                   fkey=f'method|{op}|raise-mismatch'))
+            continue
+        claims += mv_eq_claims(f'{op}:{var["how"]}[{i}]', r, coeffs(base), fkey=f'method|{op}|{var["how"]}')
+    claims.append(Eq('reached', 1, 1))
+    return claims
 
 
 REG_SRC = {
